@@ -7,6 +7,8 @@ import (
 	"fmt"
 	"github.com/RoaringBitmap/roaring"
 	"os"
+	"path/filepath"
+	"runtime"
 	"strings"
 	"testing"
 	"time"
@@ -521,6 +523,9 @@ func drawCase(t *rapid.T) *Case {
 }
 
 func replay(cf *evid.CaseFile) error {
+	if cf.Sub == "flood" {
+		return fmt.Errorf("a failure of the fail flood is reproduced by ./check C15 quick")
+	}
 	if cf.Sub == "sweep" {
 		return fmt.Errorf("a failure of the single-damage sweep is reproduced by ./check C15 quick (position is in the summary)")
 	}
@@ -633,8 +638,75 @@ func singleDamageSweepN(t *testing.T, all bool, n int) {
 	evid.Note("single_damage_positions_tested", int64(tested))
 }
 
+// failFlood: hundreds of FAILING opens in a row (every damage kind that must
+// fail, every option set).  Whatever a failing open acquires it has to give
+// back: the number of open descriptors and of goroutines must not grow with
+// the number of failures, and a good file must still open afterwards.
+func failFlood(t *testing.T, n int) {
+	dir := fix.CaseDir()
+	defer os.RemoveAll(dir)
+	spec := gen.DataSpec{Explicit: []model.Row{{"a": "1", "b": "x"}, {"a": "2"}, {}, {"a": "1", "b": "y"}}}
+	var paths []string
+	var kinds []int
+	for _, k := range []int{DMissingPath, DZeroBytes, DEmptyDB, DOtherBucket, DDelBucket, DDelSchema, DEmptySchema, DGarbageSchema, DDelCounter, DShortCounter, DGarbageBitmap, DEmptyBucket, DZeroSchema} {
+		c := &Case{Data: spec, Damages: []Damage{{Kind: k, Arg: 150 + k}}}
+		sub := filepath.Join(dir, fmt.Sprintf("k%d", k))
+		os.MkdirAll(sub, 0o755)
+		p, ex, err := apply(sub, spec.Rows(), c)
+		if err != nil {
+			panic("INFRA: " + err.Error())
+		}
+		if ex.mustFail || k == DGarbageBitmap {
+			paths, kinds = append(paths, p), append(kinds, k)
+		}
+	}
+	good, _, err := fix.Build(dir, spec.Rows(), fix.WMemFile)
+	if err != nil {
+		panic("INFRA: " + err.Error())
+	}
+	cfgs := []fix.OpenCfg{{Preload: true, CacheCap: -1}, {Preload: true, CacheCap: 4096}}
+	warm := func() {
+		for i, p := range paths {
+			if idx, _, err := fix.Open(p, cfgs[i%2]); err == nil {
+				fix.Safe(idx.Close)
+			}
+		}
+	}
+	warm()
+	runtime.GC()
+	fd0, g0 := fix.FDCount(0), runtime.NumGoroutine()
+	failed := 0
+	for i := 0; i < n; i++ {
+		p := paths[i%len(paths)]
+		idx, _, err := fix.Open(p, cfgs[(i/len(paths))%2])
+		if err == nil {
+			fix.Safe(idx.Close)
+			continue
+		}
+		failed++
+	}
+	time.Sleep(50 * time.Millisecond)
+	runtime.GC()
+	fd1, g1 := fix.FDCount(0), runtime.NumGoroutine()
+	evid.Case(failed > n/2, fmt.Sprintf("fail flood: %d opens of %d damaged files, %d failed; descriptors %d -> %d, goroutines %d -> %d", n, len(paths), failed, fd0, fd1, g0, g1), "fail-flood")
+	c := &Case{Data: spec, Damages: []Damage{{Kind: kinds[0], Arg: n}}, Open: cfgs[0]}
+	if fd0 >= 0 && fd1 > fd0+8 {
+		fix.Fail(t, prop, "flood", c, "fail flood", fmt.Errorf("after %d failed opens (preload; damage kinds %v) the process holds %d open descriptors, %d before: failing opens do not release what they acquire", failed, kinds, fd1, fd0))
+	}
+	if g1 > g0+8 {
+		fix.Fail(t, prop, "flood", c, "fail flood", fmt.Errorf("after %d failed opens the process has %d goroutines, %d before", failed, g1, g0))
+	}
+	idx, _, err := fix.Open(good, cfgs[0])
+	if err != nil {
+		fix.Fail(t, prop, "flood", c, "fail flood", fmt.Errorf("after %d failed opens a complete index does not open any more: %v", failed, err))
+		return
+	}
+	fix.Safe(idx.Close)
+}
+
 func TestQuick(t *testing.T) {
 	fix.Pinned(t, prop, replay)
+	failFlood(t, 1500)
 	systematic(t)
 	singleDamageSweep(t, false)
 	singleDamageSweepN(t, false, 70001)
@@ -645,6 +717,7 @@ func TestThorough(t *testing.T) {
 	if shard, _ := evid.Shard(); shard == 0 {
 		fix.Pinned(t, prop, replay)
 		systematic(t)
+		failFlood(t, 6000)
 	}
 	singleDamageSweep(t, true)
 	singleDamageSweepN(t, false, 70001)
